@@ -135,6 +135,10 @@ fn main() {
         ("run", "C13") => cfront::run(&mut ctx, cfront::Focus::C13),
         ("run", "C17") => cfront::run(&mut ctx, cfront::Focus::C17),
         ("run", "C18") => cfront::run(&mut ctx, cfront::Focus::C18),
+        ("c12probe", path) => {
+            c12::probe_cmd(path);
+            return;
+        }
         ("c11bomb", kind) => {
             c11::bomb_cmd(kind, args[3].parse().unwrap_or(1));
             return;
